@@ -61,6 +61,11 @@ func demux(file []byte, c Case, want []flvref.Tag) error {
 	if ver != 1 || hv != c.HasVideo || ha != c.HasAudio {
 		return fmt.Errorf("header: version %d video %v audio %v, want 1 %v %v", ver, hv, ha, c.HasVideo, c.HasAudio)
 	}
+	type keptTag struct {
+		i    int
+		body []byte
+	}
+	var kept []keptTag
 	for i, w := range want {
 		tt, size, ts, err := d.ReadTagHeader()
 		if err != nil {
@@ -75,6 +80,14 @@ func demux(file []byte, c Case, want []flvref.Tag) error {
 		}
 		if !bytes.Equal(body, w.Body) {
 			return fmt.Errorf("tag %d: body of %d bytes differs (got %d bytes)", i, len(w.Body), len(body))
+		}
+		if len(body) <= 1<<16 {
+			kept = append(kept, keptTag{i, body})
+		}
+	}
+	for _, k := range kept {
+		if !bytes.Equal(k.body, want[k.i].Body) {
+			return fmt.Errorf("tag %d: the body returned earlier changed while later tags were read", k.i)
 		}
 	}
 	if _, _, _, err := d.ReadTagHeader(); err != io.EOF {
